@@ -27,7 +27,10 @@ sim::Json generate(const std::string& tier, uint64_t seed, uint64_t index) {
   std::vector<std::string> opts;
   bool given = rng.chance(0.8);
   long objno = given ? rng.range(0, K + 1) : 1;
-  if (given) {
+  // the objective number reaches the solver object as an option string - or, in 15 % of the cases where it is given, through
+  // the option API of an AMPLS session (AMPLSSetIntOption before the model is loaded)
+  const bool api = given && rng.chance(0.15);
+  if (given && !api) {
     static const char* names[] = {"objno", "obj:no", "OBJNO"};
     opts.push_back(std::string(names[rng.below(3)]) + (rng.chance(0.8) ? "=" : " ") + std::to_string(objno));
   }
@@ -58,11 +61,24 @@ sim::Json generate(const std::string& tier, uint64_t seed, uint64_t index) {
   sc.set("objno_given", given); sc.set("objno", objno); sc.set("multi", multi);
   sim::Json& s = sc.ref("script");
   s.set("status", 0); s.set("solve_iters", 0); s.set("objvals", multi ? (long)K : 1L);
+  if (api) {
+    sim::Json ses = sim::Json::object();
+    sim::Json lo = sim::Json::array();
+    for (size_t k = 2; k < sc["argv"].size(); ++k) { std::string a = sc["argv"][k].as_str(); if (a != "-AMPL" && a.compare(0, 8, "wantsol=") != 0) lo.push(a); }
+    ses.set("load_options", lo);
+    sim::Json ao = sim::Json::array(), one = sim::Json::array();
+    one.push(rng.chance(0.5) ? "obj:no" : "objno"); one.push("int"); one.push(objno); ao.push(one);
+    ses.set("api_options", ao);
+    sim::Json rd = sim::Json::object(); rd.set("script", sc["script"]); rd.set("solfile", sim::Json());
+    sim::Json rounds = sim::Json::array(); rounds.push(rd);
+    ses.set("rounds", rounds);
+    sc.set("session", ses);
+  }
   return sc;
 }
 
 // all numbers occurring in the delivered model
-void collect_numbers(const RunRecord& rec, std::vector<double>& out) {
+void collect_numbers(const RunRecord& rec, std::vector<double>& out, std::vector<double>* cone_sq = nullptr) {
   for (auto& v : rec.stub.vars) { out.push_back(v.lb); out.push_back(v.ub); }
   for (auto& o : rec.stub.objs) { for (auto& t : o.lin) out.push_back(t.coef); for (auto& t : o.quad) out.push_back(t.coef); }
   for (auto& c : rec.stub.cons) {
@@ -73,6 +89,8 @@ void collect_numbers(const RunRecord& rec, std::vector<double>& out) {
         char* e = nullptr;
         double v = strtod(s.c_str() + i, &e);
         out.push_back(v);
+        // a (rotated) second-order cone  2 p0 x0 p1 x1 >= sum (p_i x_i)^2  carries its coefficients as square roots
+        if (cone_sq && c.type.find("ConeConstraint") != std::string::npos && s.rfind("\"params\"", i) != std::string::npos) cone_sq->push_back(v * v);
         i = (size_t)(e - s.c_str());
         if (e == s.c_str() + i && v == 0 && !e) ++i;
       } else ++i;
@@ -90,6 +108,8 @@ void judge(const sim::Json& sc, const RunRecord& rec, sim::RunResult& r) {
   long nvars = sc["expect"]["nvars"].as_int();
   bool delivered = rec.stub.finish_phase;
   std::string allout = rec.out + rec.err;
+  for (auto& m : rec.api_messages) allout += m;
+  if (sc.has("session")) r.stats.set("objno_via_api", 1);
   auto sit = rec.files_after.find("stub.sol");
   oracle::SolFile sf;
   if (sit != rec.files_after.end()) { sf = oracle::parse_sol(sit->second); if (sf.ok) allout += sf.message_text(); }
@@ -101,6 +121,8 @@ void judge(const sim::Json& sc, const RunRecord& rec, sim::RunResult& r) {
     if (delivered || !rec.stub.vars.empty()) flag("OBJNO_NOT_REJECTED", cfg, "objno=" + std::to_string(objno) + " with " + std::to_string(K) + " objectives, yet a model was delivered to the solver");
     else if (allout.find("objno") == std::string::npos && allout.find("obj:no") == std::string::npos)
       flag("OBJNO_ERROR_UNNAMED", cfg, "objno=" + std::to_string(objno) + " beyond " + std::to_string(K) + " objectives: no diagnostic naming objno; output: " + allout.substr(0, 300));
+    // nothing was used: a .sol that reports the failure must not echo the number of an objective the file does not have
+    if (sf.ok && sf.objno >= K) flag("REJECTED_OBJNO_ECHOED", cfg, "objno=" + std::to_string(objno) + " was rejected (" + std::to_string(K) + " objectives), yet the .sol says 'objno " + std::to_string(sf.objno) + "'");
     r.stats.set("objno_rejected", 1);
   } else if (!delivered) {
     r.stats.set("not_delivered", 1);   // conversion refused this model (diagnosed elsewhere: C09)
@@ -138,13 +160,16 @@ void judge(const sim::Json& sc, const RunRecord& rec, sim::RunResult& r) {
       }
     }
     // conservation of tags
-    std::vector<double> nums;
-    collect_numbers(rec, nums);
+    std::vector<double> nums, cone_sq;
+    collect_numbers(rec, nums, &cone_sq);
+    // (constraint data come from mp's JSON serialisation, which prints 6 significant digits; tags are 1000 apart)
     auto present = [&](double tag) { for (double v : nums) if (std::fabs(std::fabs(v) - tag) < 1e-6) return true; return false; };
+    auto present_in_cone = [&](double tag) { for (double v : cone_sq) if (std::fabs(v - tag) < 5e-5 * tag) return true; return false; };
     std::set<int> es(expect.begin(), expect.end());
     for (int i = 0; i < K; ++i)
       for (auto& t : sc["objinfo"][i]["tags"].arr()) {
         bool p = present(t.as_double());
+        if (es.count(i) && !p && present_in_cone(t.as_double())) { p = true; r.stats.set("tag_found_in_cone", 1); }
         if (es.count(i) && !p) flag("MISSING_TAG", cfg, "tag " + gen::fmt_double(t.as_double()) + " of selected objective " + std::to_string(i + 1) + " does not occur in the delivered model");
         if (!es.count(i) && p) flag("LEAKED_TAG", cfg, "tag " + gen::fmt_double(t.as_double()) + " of skipped objective " + std::to_string(i + 1) + " occurs in the delivered model");
       }
@@ -152,6 +177,8 @@ void judge(const sim::Json& sc, const RunRecord& rec, sim::RunResult& r) {
     // echo
     if (sf.ok && !(multi && !given) && !expect.empty() && sf.objno != eff - 1)
       flag("WRONG_OBJNO_ECHO", cfg, "objective " + std::to_string(eff) + " was used, the .sol says 'objno " + std::to_string(sf.objno) + "'");
+    if (sf.ok && expect.empty() && sf.objno != -1)
+      flag("WRONG_OBJNO_ECHO", cfg, "no objective was used, the .sol says 'objno " + std::to_string(sf.objno) + "'");
     if (sit != rec.files_after.end() && !sf.ok) flag("MALFORMED_SOL", cfg, sf.error);
     r.stats.set("judged_delivered", 1);
     r.stats.set("cfg." + cfg, 1);
